@@ -40,7 +40,10 @@ def run(cx):
     cx.rule("C13.R5", "a worker that died is never counted as idle: the pool's busy counter is decremented only in the worker loop, behind the normal return of the job (no Drop impl or helper releases the slot during unwinding) — the growth test `busy >= workers` then still starts a replacement for a worker whose job panicked")
     cx.rule("C13.R4", "a connection's end ends its job: reader and writer handed to handle() are the two halves of the captured stream, and end-of-input on that stream leaves the worker loop")
     cx.rule("C13.R6", "waiting for the next connection does not reconfigure the socket connections inherit from: Listener::accept() (helpers included) sets no socket option (read/write timeout, non-blocking mode, setsockopt) — an accepted TCP socket inherits SO_RCVTIMEO and friends from the listener, so a timeout meant for accept() would cut off every peer that is silent for that long")
+    cx.rule("C13.R7", "below the worker limit no connection waits behind another: execute() counts the new job before it tests `busy > workers`, and grows the pool on that test alone while workers < max — otherwise a connection accepted while every worker is held by an open (slow, idle) connection stays queued until some other connection ends (same analysis as C14.R3, reported here for the isolation clause)")
     r1(cx); r2(cx); r3(cx); r4(cx); r5(cx); r6(cx)
+    from .C14 import growth_rule
+    growth_rule(cx, "C13.R7")
 
 
 def r1(cx):
